@@ -115,6 +115,13 @@ let run_case (fields : string list) : string =
     let show = function Ok o -> "OK\t" ^ hex_of_str o | Err _ -> "ERR" | Crash _ -> "CRASH" in
     let a = show (run fwd) and c = show (run bwd) in
     if a = c then a else "ORDER-DEPENDENT\t" ^ a ^ "\x1f" ^ c
+  | "update" :: c :: id :: k :: nw :: _ ->
+    (match update_contents (str_of_hex c) (str_of_hex id) (n_of_int (int_of_string k)) (str_of_hex nw) with
+     | Ok o -> "OK\t" ^ hex_of_str o | Err _ -> "ERR" | Crash _ -> "CRASH")
+  | "read_current" :: c :: id :: k :: gen :: _ ->
+    (match read_current (str_of_hex c) (str_of_hex id) (n_of_int (int_of_string k)) with
+     | Ok o -> if unchanged o (str_of_hex gen) then "UNCHANGED" else "CHANGED"
+     | Err _ -> "ERR" | Crash _ -> "CRASH")
   | s :: _ -> "UNKNOWN-SUITE " ^ s
   | [] -> "EMPTY"
 
